@@ -161,3 +161,74 @@ func VerifC04ConfigOrder() {
 		zz.Assert(res.Status == lint.Pass, "a configured, applicable lint reports its body's verdict")
 	}
 }
+
+// VerifC07Configured: independence under a configuration.  A registry with two
+// configurable stubs and a plain one is given a configuration from the pool;
+// every filtered registry (include list / exclude list chosen symbolically)
+// must give each selected lint the same status, details and - for the
+// configurable ones - the same configured options as the full registry does.
+func VerifC07Configured() {
+	kind := zz.Param("fw.kind", 0)
+	di := zz.Int()
+	zz.Assume(di >= 0 && di < len(c11Docs))
+	d := c11Docs[di]
+	cfg, err := lint.NewConfigFromString(d.doc)
+	zz.Assert(err == nil, "the document is valid TOML")
+	r := c11Registry(kind, true)
+	r.SetConfiguration(cfg)
+	names := []string{"e_cfg_a", "e_cfg_b", "e_plain"}
+	sel := make([]bool, len(names))
+	var inc, exc []string
+	byExclusion := zz.Bool()
+	for i, n := range names {
+		sel[i] = zz.Bool()
+		if sel[i] && !byExclusion {
+			inc = append(inc, n)
+		}
+		if !sel[i] && byExclusion {
+			exc = append(exc, n)
+		}
+	}
+	if len(inc) == 0 && len(exc) == 0 {
+		return
+	}
+	fr, ferr := r.Filter(lint.FilterOptions{IncludeNames: inc, ExcludeNames: exc})
+	zz.Assert(ferr == nil && fr != nil, "filtering by registered names succeeds")
+	if ferr != nil || fr == nil {
+		return
+	}
+	obj := fwObject(kind)
+	lint.ZZForget()
+	full := fwRun(kind, obj, r)
+	fa, fran := lint.ZZSeen(0)
+	fb, fbran := lint.ZZSeen(1)
+	lint.ZZForget()
+	part := fwRun(kind, obj, fr)
+	pa, pran := lint.ZZSeen(0)
+	pb, pbran := lint.ZZSeen(1)
+	zz.Assert(full != nil && part != nil, "both runs return a result set")
+	if full == nil || part == nil {
+		return
+	}
+	for i, n := range names {
+		f, p := full.Results[n], part.Results[n]
+		if !sel[i] {
+			zz.Cover("unselected lint")
+			zz.Assert(p == nil, "an unselected lint has no result in the filtered run")
+			continue
+		}
+		zz.Cover("selected lint")
+		zz.Assert(f != nil && p != nil, "a selected lint has a result in both runs")
+		if f != nil && p != nil {
+			zz.Assert(f.Status == p.Status && f.Details == p.Details, "under a configuration a selected lint gets the same status and details with the filtered and the full registry")
+		}
+	}
+	if sel[0] {
+		zz.Assert(fran == pran && fa == pa, "a selected configurable lint sees the same options with the filtered and the full registry")
+	}
+	if sel[1] {
+		zz.Assert(fbran == pbran && fb == pb, "a second selected configurable lint sees the same options with the filtered and the full registry")
+	}
+	zz.Assert(zz.Implies(part.FatalsPresent, full.FatalsPresent), "a fatal flag raised by the filtered run is raised by the full run")
+	zz.Assert(zz.Implies(part.WarningsPresent, full.WarningsPresent), "a warning flag raised by the filtered run is raised by the full run")
+}
